@@ -96,8 +96,96 @@ def patches_verdict(got, spec, how):
     return 'ComputePatches %s returned %d patch(es) where the schedule-independent result has %d — %s' % (how, len(g), len(w), ' | '.join(what))
 
 
+def history_oracle(case, fi):
+    """The sequential specification of C16_cache_linearizable_partial (a map with fetch-on-miss) judged on the IMPLEMENTATION's
+    observed history (reply field hist=), independently of the Lean model's step semantics:
+      * the fetch function is never running twice at once for one key (single flight);
+      * the completed Get/SetMap/GetMap calls admit a sequential order that respects real time (A returned before B was
+        invoked => A first) and is legal: Get(k) returns the stored value if there is one, otherwise some fetch outcome,
+        which is stored when it is a success; GetMap returns exactly the map. (Skipped when a SetMap ran while a fetch was in
+        flight: that is outside the theorem's hypothesis and provably not linearizable.)"""
+    h = fi.get('hist')
+    if not h or h == '-':
+        return None
+    keys = [int(k) for k in case.split(' ')[1].split(',')]
+    ev = h.split(',')
+    inv, resp, res, fs, fe = {}, {}, {}, {}, {}
+    atomic = []          # (index, kind, map)
+    def pmap(t):
+        return {} if t in ('-', '') else {int(a): int(b) for a, b in (kv.split('=') for kv in t.split(';'))}
+    for i, e in enumerate(ev):
+        if e.startswith('fs'):
+            fs[int(e[2:])] = i
+        elif e.startswith('fe'):
+            fe[int(e[2:].split(':')[0])] = i
+        elif e[0] == 'i':
+            inv[int(e[1:])] = i
+        elif e[0] == 'r':
+            t, r = e[1:].split(':')
+            resp[int(t)] = i
+            res[int(t)] = r
+        elif e[0] in 'SG':
+            atomic.append((i, e[0], pmap(e[1:])))
+    findings = []
+    # 1. single flight
+    fl = sorted(fs)
+    for a in fl:
+        for b in fl:
+            if a < b and keys[a] == keys[b] and fs[b] < fe.get(a, 10 ** 9) and fs[a] < fe.get(b, 10 ** 9) and not findings:
+                findings.append('the fetch function was invoked for key %d by caller %d while the fetch of caller %d for the same key was still in flight (single flight violated)'
+                                % (keys[a], b if fs[b] > fs[a] else a, a if fs[b] > fs[a] else b))
+    def out():
+        return (' || '.join(findings) + '; history: ' + h) if findings else None
+    # 2. linearizability of the completed calls
+    if any(k == 'S' and any(fs[t] < i < fe.get(t, 10 ** 9) for t in fs) for i, k, _ in atomic):
+        return out()
+    ops = [('get', inv[t], resp[t], keys[t], res[t], t) for t in resp if t in inv] + [(k, i, i, None, m, None) for i, k, m in atomic]
+    n = len(ops)
+    if n > 9:
+        return out()
+    before = [[ops[a][2] < ops[b][1] for b in range(n)] for a in range(n)]
+    def search(done, m):
+        if len(done) == n:
+            return True
+        for x in range(n):
+            if x in done or any(before[y][x] for y in range(n) if y not in done and y != x):
+                continue
+            kind, _, _, k, r, _ = ops[x]
+            if kind == 'get':
+                if k in m:
+                    if r != 'ok%d' % m[k]:
+                        continue
+                    m2 = m
+                elif r.startswith('ok'):
+                    m2 = dict(m)
+                    m2[k] = int(r[2:])
+                else:
+                    m2 = m
+            elif kind == 'S':
+                m2 = dict(r)
+            else:
+                if r != m:
+                    continue
+                m2 = m
+            if search(done | {x}, m2):
+                return True
+        return False
+    if not search(frozenset(), {}):
+        per_key = {}
+        for t in resp:
+            per_key.setdefault(keys[t], set()).add(res[t])
+        multi = {k: sorted(x for x in v if x.startswith('ok')) for k, v in per_key.items() if len([x for x in v if x.startswith('ok')]) > 1}
+        what = ('callers of key %s observed values %s; ' % (list(multi)[0], list(multi.values())[0])) if multi else ''
+        findings.append(what + 'no sequential order of the completed Get/SetMap/GetMap calls that respects real-time order is legal for the map-with-fetch-on-miss '
+                        'specification (not linearizable)')
+    return out()
+
+
 def cache_oracle(case, fi):
     """the cache specification evaluated on the IMPLEMENTATION's reply, from the case line alone"""
+    hv = history_oracle(case, fi)
+    if hv:
+        return hv
     t = case.split(' ')
     keys = [int(k) for k in t[1].split(',')]
     pubs = {}      # key -> set of published results ('ok<v>' / 'err')
@@ -119,7 +207,7 @@ def cache_oracle(case, fi):
                     k, v = kv.split('=')
                     setv.setdefault(int(k), set()).add('ok' + v)
     ret = fi.get('ret', '')
-    if ret.startswith('desync') or ret == 'incomplete':
+    if ret.startswith('desync') or ret in ('incomplete', 'bad-schedule'):
         return None
     rets = ret.split(',')
     if len(rets) != len(keys):
@@ -397,6 +485,10 @@ def run(ctx):
                 ctx.violation('c16gen-race exited %d: %s' % (rc, err[-600:]), ['# see notes'], found_input=False, name='race-crash')
             if rows and drv_ok:
                 model = ctx.run_driver('drv_c16', [c for c, _ in rows])
+                for (c, i), mo in zip(rows, model):      # the specification judged on what the race build observed, too
+                    verdict = oracle(c, lib.fields(i), lib.fields(mo))
+                    if verdict is not None and sum(1 for v in ctx.violations if v[2]) < 3:
+                        ctx.violation('specification violated by the implementation (under -race): ' + verdict, [c + '\t' + i + '\t' + mo])
                 bad = [(c, i, mo) for (c, i), mo in zip(rows, model)
                        if any(lib.fields(i).get(k) != lib.fields(mo).get(k) for k in COMPARE)]
                 if bad:
